@@ -36,7 +36,7 @@ def normalize_index(index, ndim):
         return tuple(slice(None) for i in range(ndim))
     if isinstance(index, (slice, int)):
         return tuple([index] + [slice(None) for i in range(ndim - 1)])
-    if isinstance(index, np.ndarray) and index.all():
+    if isinstance(index, np.ndarray) and index.dtype == bool and index.all():
         # The numpy test routines seem to like passing in ND arrays that are
         # all True
         return tuple(slice(None) for i in range(ndim))
